@@ -110,26 +110,15 @@ def run(cx):
         return len(c.ga) == 2 and c.ga[1] == "core::convert::Infallible"
 
     def reraise_only_on_panic(site, b):
-        # dominated by the `true` edge of is_panic() and the `false` edge of is_cancelled()
-        o = Origins(b)
-        ok_p = ok_c = False
-        for sw, subj, labels in find_switch_on(b, lambda s: strip_identity(s)[0] == "call" and name_matches(strip_identity(s)[1], ("JoinError::is_panic", "JoinError::is_cancelled")), o):
-            nm = strip_identity(subj)[1].split("::")[-1]
-            for tgt, ls in labels.items():
-                if nm == "is_panic" and ls == {"true"} and b.dominates(tgt, site["bb"]):
-                    ok_p = True
-                if nm == "is_cancelled" and ls == {"false"} and b.dominates(tgt, site["bb"]):
-                    ok_c = True
+        # dominated by the `true` edge of is_panic() (or the Ok arm of try_into_panic()) and the `false` edge of is_cancelled()
+        es = join_error_edges(b)
+        ok_p = any(nm == "is_panic" and tv and b.dominates(tgt, site["bb"]) for tgt, nm, tv in es)
+        ok_c = any(nm == "is_cancelled" and not tv and b.dominates(tgt, site["bb"]) for tgt, nm, tv in es)
         return ok_p and ok_c
 
     def failed_only_after_cancel_and_panic_excluded(site, b):
-        o = Origins(b)
-        ok = 0
-        for sw, subj, labels in find_switch_on(b, lambda s: strip_identity(s)[0] == "call" and name_matches(strip_identity(s)[1], ("JoinError::is_panic", "JoinError::is_cancelled")), o):
-            for tgt, ls in labels.items():
-                if ls == {"false"} and b.dominates(tgt, site["bb"]):
-                    ok += 1
-        return ok == 2
+        es = join_error_edges(b)
+        return {nm for tgt, nm, tv in es if not tv and b.dominates(tgt, site["bb"])} == {"is_panic", "is_cancelled"}
 
     def serialize_expect(site, b):
         c = b.call_at(site["bb"])
@@ -174,6 +163,10 @@ def run(cx):
                 continue
             listed.append(s["key"])
             a = allow.get(s["key"])
+            if a is None and static_bounds_ok(s, b):
+                ob.evals += 1
+                ob.matched += 1          # constant index into a fixed-size array: cannot fail
+                continue
             if a is None:
                 ob.fail("refuted", f"panic/unlisted/{s['key']}",
                         f"panic-capable construct `{s['what']}` in {s['body']} is reachable from remote-driven code (via {s['via']}) and is not justified in the inventory",
@@ -254,15 +247,17 @@ def run(cx):
 
         def extra(a, bb, subj, labels, o):
             lab = "|".join(sorted(labels))
+            if join_error_test(subj, labels) is not None:
+                return join_error_test(subj, labels)[0] + "=" + str(join_error_test(subj, labels)[1]).lower()
             if subj[0] == "discr":
                 u = subj[1]
                 vs = [x for x in walk(u) if x[0] == "variant"]
                 r = strip_identity(u)
                 if vs and r[0] in ("field", "variant"):
                     return "[" + lab + "]"
-            s = strip_identity(subj)
-            if s[0] == "call" and name_matches(s[1], ("JoinError::is_cancelled", "JoinError::is_panic")):
-                return s[1].split("::")[-1] + "=" + lab
+            jt = join_error_test(subj, labels)
+            if jt is not None:
+                return jt[0] + "=" + str(jt[1]).lower()
             return None
         for idx, tgt in sorted(site["arms"].items()):
             fut = site["polled"].get(idx, "?")
